@@ -153,12 +153,55 @@ fn check_second_pending(case: &Case, want_sample: bool) -> RunOut {
     o
 }
 
+fn check_queued_second(case: &Case, want_sample: bool) -> RunOut {
+    let mut st = match Stepper::new_filtered(&case.cfg, &case.files, Mode::Ticking) {
+        Ok(s) => s,
+        Err(_) => return RunOut::skip("parser-rejected"),
+    };
+    st.run_ops(&case.ops);
+    st.gap(400);
+    st.finish();
+    let outs = st.trace.outs.clone();
+    let mut o = RunOut::pass();
+    o.sim_ms = st.trace.sim_ms;
+    o.count("pop.queued-second", 1);
+    let mut sig = fnv(0, case.cfg.as_bytes());
+    for op in &case.ops {
+        sig = fnv(sig, op.short().as_bytes());
+    }
+    o.sig = sig;
+    if st.probes.max_extra_waiting > 0 {
+        o.count("probe.two-tap-hold-decisions-pending-at-once", 1);
+    }
+    let n = |k: &str| outs.iter().filter(|e| e.kind == OutKind::Press && e.key == k).count();
+    o.nontrivial = n("P") + n("Q") > 0;
+    let d = st.down_set();
+    if !d.is_empty() {
+        o.set_fail("C05:stuck-after-release", format!("keys still down at the end: {:?}: {}", d.keys, outs_short(&outs)), vec![]);
+    }
+    if (n("X") + n("Y"), n("P") + n("Q")) != (1, 1) && !o.failed() {
+        o.set_fail("C05:not-exactly-one-outcome", format!("first tap-hold {} outcomes, second tap-hold {} outcomes (expected 1 each): {}", n("X") + n("Y"), n("P") + n("Q"), outs_short(&outs)), vec![]);
+    }
+    let (h2, hd) = (case.param_u64("h2").unwrap_or(0), case.param_u64("hd").unwrap_or(0));
+    if !o.failed() {
+        if hd + 3 < h2 && n("P") != 1 {
+            o.set_fail("C05:queued-tap-hold-released-early-not-tap", format!("the second tap-hold key was held {hd} ms, hold timeout {h2}: expected its tap action: {}", outs_short(&outs)), vec![]);
+        } else if hd > h2 + 3 && n("Q") != 1 {
+            o.set_fail("C05:queued-tap-hold-held-long-not-hold", format!("the second tap-hold key was held {hd} ms, hold timeout {h2}: expected its hold action: {}", outs_short(&outs)), vec![]);
+        }
+    }
+    if want_sample {
+        o.sample = Some(sample_json(case, &outs, serde_json::json!({"pop": "queued-second"})));
+    }
+    o
+}
+
 impl Prop for C05 {
     fn id(&self) -> &'static str {
         "C05"
     }
     fn rule_text(&self) -> String {
-        "case = one tap-hold key (all 7 variants; tap / hold / timeout actions are three distinct marker keys) + two other keys (plain; one of them optionally a mouse-button key, i.e. a custom action only), H in {1,2,5,50,200}, tap-repress window in {0,H,2H}, concurrent-tap-hold on/off, rapid-event-delay in {0,5}; schedules of <= 8 events with gaps from the boundary grid {0,1,H-1,H,H+1,...}. Populations: solo (exact tick), inter (one tap-hold press from a drained engine interleaved with other keys: exact decision + tick from a reference function, buffered keys in order), repress, random (two tap-hold keys: exclusivity + no loss/duplication), second-pending (a chords-v2 chord whose action is a tap-hold activates while a physical tap-hold is undecided, then a plain key: one outcome each, the plain key output after both decisions). non-trivial = a tap-hold decision was observed; distinct = (variant,H,concurrent,delay) x schedule signature hash (the fraction of the boundary grid reached is reported under grid_cells).".into()
+        "case = one tap-hold key (all 7 variants; tap / hold / timeout actions are three distinct marker keys) + two other keys (plain; one of them optionally a mouse-button key, i.e. a custom action only), H in {1,2,5,50,200}, tap-repress window in {0,H,2H}, concurrent-tap-hold on/off, rapid-event-delay in {0,5}; schedules of <= 8 events with gaps from the boundary grid {0,1,H-1,H,H+1,...}. Populations: solo (exact tick), inter (one tap-hold press from a drained engine interleaved with other keys: exact decision + tick from a reference function, buffered keys in order), repress, random (two tap-hold keys: exclusivity + no loss/duplication), queued-second (a second tap-hold key pressed while the first is undecided: its outcome depends on its own hold time only), second-pending (a chords-v2 chord whose action is a tap-hold activates while a physical tap-hold is undecided, then a plain key: one outcome each, the plain key output after both decisions). non-trivial = a tap-hold decision was observed; distinct = (variant,H,concurrent,delay) x schedule signature hash (the fraction of the boundary grid reached is reported under grid_cells).".into()
     }
     fn runs(&self, tier: Tier) -> u64 {
         match tier {
@@ -168,6 +211,49 @@ impl Prop for C05 {
     }
     fn gen(&self, seed: u64, _tier: Tier) -> Case {
         let mut r = Rng::new(seed);
+        if r.chance(40) {
+            // 'queued-second' population: a second tap-hold key is pressed (and possibly released)
+            // while the first one is still undecided, so its press waits in the queue. How long
+            // it waited must not change its own outcome: tap iff it was released before its hold
+            // timeout had elapsed since its press.
+            let h1 = *r.pick(&[60u64, 200]);
+            let h2 = *r.pick(&[30u64, 100, 250]);
+            let v1 = *r.pick(&["tap-hold", "tap-hold", "tap-hold-release", "tap-hold-press"]);
+            let v2 = *r.pick(&["tap-hold", "tap-hold-release", "tap-hold-press"]);
+            let concurrent = r.chance(600);
+            let mut case = Case { prop: "C05".into(), seed, ..Default::default() };
+            case.cfg = format!(
+                "(defcfg concurrent-tap-hold {})\n(defsrc a d)\n(deflayer l0 ({v1} 0 {h1} x y) ({v2} 0 {h2} p q))\n",
+                if concurrent { "yes" } else { "no" }
+            );
+            let (a, d) = (oscode_of("a"), oscode_of("d"));
+            let g1 = r.range(1, h1 + 20);
+            let hd = *r.pick(&[1u64, h2 / 2, h2 - 10, h2 - 4, h2 + 4, h2 + 10, 2 * h2]);
+            let mut ar = r.range(5, h1 + h2 + 100);
+            while ar == g1 || ar == g1 + hd {
+                ar += 1;
+            }
+            let mut evs = vec![(0u64, Op::Press(a)), (g1, Op::Press(d)), (g1 + hd, Op::Release(d)), (ar, Op::Release(a))];
+            evs.sort_by_key(|e| e.0);
+            let mut ops = vec![];
+            let mut t = 0;
+            for (at, op) in evs {
+                if at > t {
+                    ops.push(Op::Gap((at - t) as u32));
+                    t = at;
+                }
+                ops.push(op);
+            }
+            ops.push(Op::Gap(700));
+            case.ops = ops;
+            case.set("pop", "queued-second");
+            case.set("h2", h2);
+            case.set("hd", hd);
+            case.set("min_ops", 0);
+            case.set("min_cfg", 0);
+            case.set("min_gaps", 0);
+            return case;
+        }
         if r.chance(60) {
             // 'second-pending' population: while a physical tap-hold key is undecided a chords-v2
             // chord whose action is another tap-hold activates (a second decision pending at the
@@ -349,6 +435,9 @@ impl Prop for C05 {
     fn check(&self, case: &Case, want_sample: bool) -> RunOut {
         if case.param("pop") == Some("second-pending") {
             return check_second_pending(case, want_sample);
+        }
+        if case.param("pop") == Some("queued-second") {
+            return check_queued_second(case, want_sample);
         }
         if !history_consistent(&case.ops) {
             return RunOut::skip("history-not-consistent");
